@@ -90,7 +90,7 @@ func c24InPlaceDeletion(c *Ctx, p *Prog, ld *packages.Package) {
 func c24ConstructorTotal(c *Ctx, p *Prog, bt *packages.Package) {
 	const rule = "constructor-total"
 	for ctor, typ := range map[string]string{"or": "OrExpr", "and": "AndExpr", "not": "NotExpr", "tag": "TagExpr"} {
-		fd := p.MustFunc(rule, bt, ctor)
+		fd := p.MustFunc(rule, bt, c24Names.Ctor[typ])
 		if fd == nil {
 			continue
 		}
